@@ -3,5 +3,6 @@ pub mod astjson;
 pub mod core;
 pub mod engine;
 pub mod gen;
+pub mod model;
 pub mod props;
 pub mod refm;
